@@ -11,6 +11,8 @@ from ..harness import Sub, Violation
 from ..spy import BatchRecorder, optimiser_spy
 from ..stepcheck import StepChecker
 
+QUICK_SCALE = 3  # quick budgets below are multiplied by this (kept at about half a minute on 8 processes)
+
 RULE = ("real fits of every gradient-trained family (tiny shapes: n<=12, d<=4, hidden<=4, K<=3, n_cuts<=2, max_iter<=3, "
         "learning rates up to 0.5, any batch size) with sklearn's BaseOptimizer.update_params wrapped; at each observed "
         "step and for each parameter array separately, -<direction,V> is compared with the Richardson derivative along V "
